@@ -503,7 +503,37 @@ fn gen_query(r: &mut Rng, l: &Layout) -> (Vec<u8>, Vec<u8>, Vec<u8>) {
     };
     // ceilings
     let mut entries: Vec<Vec<u8>> = Vec::new();
-    if r.chance(3, 5) {
+    if r.chance(1, 4) {
+        // several entries at once: the start directory itself, a real ancestor (mostly a near one, so that
+        // repositories further up must stay hidden), duplicates and directories that are no ancestors
+        let mut anc = Vec::new();
+        let mut q = start_abs.clone();
+        while q.len() > 2 {
+            q = parent(&q);
+            anc.push(q.clone());
+        }
+        entries.push(start_abs.clone());
+        if !anc.is_empty() {
+            let i = if r.chance(2, 3) { 0 } else { r.usize(anc.len()) };
+            entries.push(anc[i].clone());
+            if r.chance(1, 3) {
+                entries.push(anc[i].clone());
+            }
+            if r.chance(1, 3) {
+                entries.push(anc[r.usize(anc.len())].clone());
+            }
+        }
+        if r.chance(1, 2) {
+            entries.push(start_abs.clone());
+        }
+        if r.chance(1, 2) {
+            entries.push(r.pick(&l.dirs).clone());
+        }
+        if r.chance(1, 4) {
+            entries.push([&start_abs[..], b"/below"].concat());
+        }
+        r.shuffle(&mut entries);
+    } else if r.chance(3, 5) {
         let mut anc = Vec::new();
         let mut q = start_abs.clone();
         loop {
@@ -560,6 +590,11 @@ fn fixed() -> Vec<(Layout, Vec<(Vec<u8>, Vec<u8>, Vec<u8>)>)> {
         (b("/R/w/a/b"), b("."), b("/R/w/a")),
         (b("/R"), b("/R/plain/x"), b("")),
         (b("/R/plain"), b("../w/a"), b(":/R/w/")),
+        // several ceilings, one of them the start directory itself: the real ancestor still counts
+        (b("/R"), b("/R/w/a/b"), b("/R/w/a/b:/R/w/a")),
+        (b("/R"), b("/R/w/a/b"), b("/R/w/a:/R/w/a/b:/R/w/a")),
+        (b("/R/w/a"), b("b"), b("/R/plain:/R/w/a/b:/R/w/a:/R/w/a/b/below")),
+        (b("/R"), b("/R/w/a"), b("/R/w/a:/R/w/a")),
     ];
     // an empty `.git` directory below a work tree that is reached through a `.git` file (fix 9a9c140e6),
     // a one-component relative start (fix e2628ce17), a bare repository found from a relative start (fix ba5aeb5ef)
